@@ -88,6 +88,70 @@ def stale_file_histories():
     return hists
 
 
+_WD = []
+
+
+def _writing_disk():
+    """module-level (picklable) Disk subclass whose constructor runs a one-shot hook"""
+    if not _WD:
+        import diskcache
+
+        class WritingDisk(diskcache.Disk):
+            hook = None
+
+            def __init__(self, directory, **kw):
+                super().__init__(directory, **kw)
+                h, WritingDisk.hook = WritingDisk.hook, None
+                if h:
+                    h()
+        WritingDisk.__module__ = __name__
+        WritingDisk.__qualname__ = 'WritingDisk'
+        globals()['WritingDisk'] = WritingDisk
+        _WD.append(WritingDisk)
+    return _WD[0]
+
+
+def open_race_probe():
+    """a handle being opened (Cache(directory), unpickling, a FanoutCache shard) while ANOTHER client
+    commits writes: afterwards counters, rows and files must agree.  The write is made to happen in the
+    middle of the open, right after the stored settings were read, through the constructor of the Disk
+    class the new handle is given (a documented extension point)."""
+    import pickle
+    import shutil
+    import tempfile
+    import diskcache
+    root = os.environ.get('VERIF_SCRATCH') or tempfile.gettempdir()
+    bad = []
+
+    WritingDisk = _writing_disk()
+    for how in ('open', 'unpickle'):
+        d = tempfile.mkdtemp(prefix='openrace-', dir=root)
+        try:
+            first = diskcache.Cache(d, disk=WritingDisk, disk_min_file_size=8)
+            first['a'] = b'A' * 30
+            first['b'] = 1
+            blob = pickle.dumps(first)
+
+            def write_more(first=first):
+                first['c'] = b'C' * 50
+                first['d'] = 2
+                del first['b']
+            WritingDisk.hook = write_more
+            second = diskcache.Cache(d, disk=WritingDisk) if how == 'open' else pickle.loads(blob)
+            WritingDisk.hook = None
+            keys = sorted(second)
+            problems = [str(w.message) for w in second.check() if not str(w.message).startswith('empty directory')]
+            if len(second) != len(keys) or problems:
+                bad.append('a handle %s while another client wrote: len() = %d with keys %r; check() reports %r' % (
+                    'opened' if how == 'open' else 'unpickled', len(second), keys, problems[:3]))
+            second.close()
+            first.close()
+        finally:
+            WritingDisk.hook = None
+            shutil.rmtree(d, ignore_errors=True)
+    return bad
+
+
 def acceptor(hist, io):
     for idx, (op, res) in enumerate(base.results_of(hist, io)):
         if op['m'] == 'check' and res != '[]':
@@ -209,6 +273,8 @@ def run(tier, seed, rng, known, replay):
     r = base.check_histories('C08', hists, ('result', 'state'), acceptor=acceptor, known=known)
     dist, distinct = base.op_distribution(hists, r['impl_out'])
     violations = list(r['violations'])
+    for v in open_race_probe()[:2]:
+        violations.append({'replay': {'property': 'C08', 'kind': 'open-race-probe', 'acceptor': v}, 'found_input': True, 'what': v})
     n_cases = 32 if tier == 'quick' else 300
     seeds = [rng.getrandbits(48) for _ in range(n_cases)]
     with ProcessPoolExecutor(max_workers=16) as ex:
